@@ -1518,6 +1518,12 @@ def _expected_loss(agent, cfg, batch, seed) -> Optional[float]:
             nobs = agent.preprocess_observation(batch["next_obs"])
             a, r, d = batch["action"], batch["reward"], batch["done"]
             na = agent.actor_target(nobs)
+            pn = float(cfg.get("_policy_noise", 0.0))
+            if pn > 0:
+                # target-policy smoothing: learn() draws the noise first thing after the harness reseeds the generators, so the same draw is reproducible here
+                seed_all(seed)
+                noise = torch.empty_like(a).normal_(0, pn)
+                na = na + agent.multi_dim_clamp(-0.5, 0.5, noise)
             na = agent.multi_dim_clamp(agent.min_action, agent.max_action, na)
             if algo == "DDPG":
                 y = r + (1 - d) * agent.gamma * agent.critic_target(nobs, na)
@@ -1644,17 +1650,20 @@ def run_c08(ctx: kernel.Ctx, case: Dict[str, Any]) -> None:
                 nb = A.make_batch(ag, cfg, kernel.derive(s, "n"), op["done"], batch_size=bs)
                 nb_t = A.make_batch(twin, cfg, kernel.derive(s, "n"), op["done"], batch_size=bs, noise_next_where_done=True)
             want_loss = None
+            pn = 0.2 if (algo in ("DDPG", "TD3") and kernel.derive(s, "pn") % 2) else 0.0
+            if pn:
+                ctx.probe("target_policy_smoothing_noise")
             if algo in ("DQN", "CQN", "DDPG", "TD3", "MADDPG", "MATD3"):
-                want_loss = _expected_loss(ag, cfg, batch, s)
+                want_loss = _expected_loss(ag, dict(cfg, _policy_noise=pn), batch, s)
             rb_want = _rainbow_expected(ag, cfg, batch, nb) if algo == "RainbowDQN" else None
             seed_all(s)
             if algo in ("DDPG", "TD3"):
-                out = ag.learn(batch, policy_noise=0.0)
+                out = ag.learn(batch, policy_noise=pn)
             else:
                 out = A.do_learn(ag, cfg, batch, nb)
             seed_all(s)
             if algo in ("DDPG", "TD3"):
-                out_t = twin.learn(batch_t, policy_noise=0.0)
+                out_t = twin.learn(batch_t, policy_noise=pn)
             else:
                 out_t = A.do_learn(twin, cfg, batch_t, nb_t)
             n_learn += 1
